@@ -1,6 +1,7 @@
 import XModel.ManagerFrame
 import XModel.Sched2
 import XModel.ManagerC18
+import XModel.ManagerC18Fn
 import XProofs.Properties.C01
 /-!
 # C18 — a failure in the middle of an update is reported and fully recoverable
@@ -65,6 +66,34 @@ theorem C18_recover_exec (sched : Sched) (s : MState) (p : Path) (v : Val) (k : 
     (hok : setValue sched { (setValue sched { s with faultIn := k } p v).1 with faultIn := none } p v = (s', none)) :
     Consistent s' :=
   setValue_recover sched s p v k hi hc hfz sc hvs s' hok
+
+/-- **recovery with function tasks**: the manager holds expression tasks and `FunctionTask`s; an assignment to a plain
+    location fails at any point (`faultIn := k`: in the assigned write, in a definition's write, in the MIDDLE of a
+    function body …); the repeat after the fault is gone — under any legal schedule, not necessarily the first
+    attempt's — when it completes, leaves every definition and every line of every function body holding -/
+theorem C18_recover_function_tasks (sched1 sched2 : Sched) (s : MState) (p : Path) (v : Val) (k : Option Nat)
+    (hi : MInv s) (hnodef : lookDef s.defs p = none) (sc : ScopeF s p)
+    (hvs1 : ValidSched (gOf s.idx) (findTaskids s.idx (chainR p)) (sched1 (findTaskids s.idx (chainR p))))
+    (hvs2 : ValidSched (gOf s.idx) (findTaskids s.idx (chainR p)) (sched2 (findTaskids s.idx (chainR p))))
+    (hc : ConsistentF s) (s' : MState)
+    (hok : setValue sched2 { (setValue sched1 { s with faultIn := k } p v).1 with faultIn := none } p v = (s', none)) :
+    ConsistentF s' :=
+  setValue_recoverF sched1 sched2 s p v k hi hnodef sc hvs1 hvs2 hc s' hok
+
+/-- whatever a run does — completes, faults, meets an evaluation error — it changes the containers only at locations
+    comparable with the assigned one or with a target of a triggered expression / function task -/
+theorem C18_writes_only_triggered_targets (sched : Sched) (s : MState) (p : Path) (v : Val) (hp : canonPath p)
+    (q : Path) (hq : canonPath q) (hpq : Incomparable p q)
+    (htr : ∀ t ∈ s.defs, t.id ∈ sched (findTaskids s.idx (chainR p)) →
+      ((∃ e, t.kind = .expr e) ∨ ∃ body, t.kind = .func body) ∧
+      ∀ it ∈ itemsOf t, canonPath it.target ∧ Incomparable it.target q) :
+    get (writeAndRun sched s p v).1.store q = get s.store q :=
+  writeAndRun_frameF sched s p v hp q hq hpq htr
+
+/-- non-vacuity for the function-task form: `c = a + b` and `#F : e := c*2 ; f := a+1`; a fault in the middle of the
+    body leaves `e` new and `f` stale, the repeat repairs it -/
+example : lookDef C18FnExample.sF.defs C18FnExample.da = none ∧ scopeFB C18FnExample.sF C18FnExample.da = true :=
+  ⟨C18FnExample.sF_hyps.1, C18FnExample.sF_hyps.2.1⟩
 
 /-! non-vacuity: the chain of `Properties.C01` (c = a + b, e = c * a); `a = 5` with a fault at the third container
     write leaves `e` stale; repeating the assignment repairs it -/
